@@ -5,7 +5,7 @@
 From Coq Require Import List NArith ZArith Bool.
 Import ListNotations.
 From GMS Require Import Codec.C28Date Codec.C28DateProofs Codec.C28Wire Codec.C28WireProofs Codec.C28WireProofs2
-  Codec.C28Str Codec.C28Bin Codec.C28BinProofs.
+  Codec.C28Str Codec.C28Bin Codec.C28BinProofs Codec.C28BinProofs2.
 Open Scope Z_scope.
 
 (* strconv.AppendInt followed by strconv.ParseInt is the identity on every integer (no width bound) *)
@@ -180,6 +180,22 @@ Theorem C28_date_binary_roundtrip :
     exists t b, date_sql_text x = Some t /\ datetime_bin t = Some b /\ datetime_bin_decode b = Some x /\ length b = 5%nat.
 Proof. intros x H1 H2 H3. exact (date_binary_roundtrip x (conj H1 (conj H2 H3))). Qed.
 Print Assumptions C28_date_binary_roundtrip.
+
+(* DATETIME(n)/TIMESTAMP(n): text -> 7-byte (n = 0) or 11-byte struct (chosen by the text length) -> the same instant *)
+Theorem C28_datetime_binary_roundtrip :
+  forall n x, (n <= 6)%nat -> x mod frac_unit n = 0 -> x <> zero_time_us -> 1000 <= year_of_us x <= 9999 ->
+    datetime_range_ok n x = true ->
+    exists t b, datetime_sql_text n x = Some t /\ datetime_bin t = Some b /\ datetime_bin_decode b = Some x /\
+                length b = (match n with O => 8 | _ => 12 end)%nat.
+Proof. intros n x H1 H2 H3 H4 H5. exact (datetime_binary_roundtrip n x (conj H1 (conj H2 (conj H3 (conj H4 H5))))). Qed.
+Print Assumptions C28_datetime_binary_roundtrip.
+
+(* TIME: text -> 12-byte struct (sign, days, hours mod 24, minutes, seconds, microseconds) -> the same value *)
+Theorem C28_time_binary_roundtrip :
+  forall x, - time_max_us <= x <= time_max_us ->
+    exists b, time_bin (time_sql_text x) = Some b /\ time_bin_decode b = Some x /\ length b = 13%nat.
+Proof. exact time_binary_roundtrip. Qed.
+Print Assumptions C28_time_binary_roundtrip.
 
 (* non-vacuity: the hypotheses are satisfiable and the texts are the expected ones *)
 Example C28_nonvacuous :
